@@ -18,6 +18,7 @@ enum Kind { Lookup, Put, Get }
 
 async fn run_world(wi: u64, mut rng: Rng) -> anyhow::Result<(String, serde_json::Value, bool, Vec<serde_json::Value>)> {
     let net = SimNet::new();
+    let tw0 = Instant::now();
     let n = rng.range(2, 12) as usize;
     let timeout = Duration::from_millis(T_MS);
     let mut nodes = vec![];
@@ -36,6 +37,7 @@ async fn run_world(wi: u64, mut rng: Rng) -> anyhow::Result<(String, serde_json:
         let mg = nodes[i].manager.clone(); let want = degree[i];
         wait_until(|| { let mg = mg.clone(); async move { mg.get_connected_peers().await.len() >= want } }, Duration::from_secs(3)).await;
     }
+    let t_setup = tw0.elapsed().as_millis();
     net.set_delays(rng.next(), rng.range(0, 20_000));
     // some stored data so that gets can succeed
     let mut keys = vec![];
@@ -116,11 +118,13 @@ async fn run_world(wi: u64, mut rng: Rng) -> anyhow::Result<(String, serde_json:
         "requests_after_stop": late.iter().map(|e| json!([e.at_ms - stop_returned_at, e.op.clone(), &e.to[..8]])).collect::<Vec<_>>(),
         "tags": if late.is_empty() { vec![] } else { vec!["request-after-stop"] }});
     let nontrivial = obs.len() >= 3;
+    let t_run = tw0.elapsed().as_millis();
     for (i, nd) in nodes.iter().enumerate() {
         net.set_silent(&nd.tid, false);
         if i != a { let _ = tokio::time::timeout(Duration::from_secs(10), nd.manager.stop()).await; }
         let _ = tokio::time::timeout(Duration::from_secs(5), nd.transport.stop()).await;
     }
+    if std::env::var("C20_DEBUG").is_ok() { eprintln!("world {wi}: n={n} setup {t_setup} ms, run until {t_run} ms, teardown until {} ms", tw0.elapsed().as_millis()); }
     Ok((term, desc, nontrivial, viol))
 }
 
@@ -139,7 +143,8 @@ fn main() {
         let futs: Vec<_> = (0..conc.min(worlds - wi)).map(|k| run_world((wi + k) as u64, rng.fork())).collect();
         for o in rt.block_on(futures::future::join_all(futs)) {
             match o {
-                Ok((term, desc, nontrivial, viol)) => {
+                if std::env::var("C20_DEBUG").is_ok() { eprintln!("world {wi}: n={n} setup {t_setup} ms, run until {t_run} ms, teardown until {} ms", tw0.elapsed().as_millis()); }
+    Ok((term, desc, nontrivial, viol)) => {
                     w.push(id, term); sum.evaluations += 1; if nontrivial { sum.distinct_nontrivial += 1; }
                     for v in viol { sum.violation(id, v["what"].as_str().unwrap_or("liveness"), &[], v.clone()); }
                     if let Some(arr) = desc["ops"].as_array() { sum.add("ops_measured", arr.len() as u64); }
